@@ -128,7 +128,7 @@ class C05(Check):
         "harness/sym_termlist.py (mirror of Model/Sym.lean)",
     ]
     assumptions = ["primitives meet Spec (refine ⇒ implies original in context; relax ⇒ implied; simplify ⇔ in context; refines True ⇒ containment) and fail only with ValueError"]
-    min_branches = {"compose:ok": 150, "quotient:ok": 100, "merge:ok": 100, "err:IncompatibleArgsError": 200, "err:ValueError": 100,
+    min_branches = {"compose:ok": 90, "quotient:ok": 100, "merge:ok": 100, "err:IncompatibleArgsError": 200, "err:ValueError": 100,
                     "compose:refA": 40, "quotient:qRef-no": 30}
 
     def generate(self, rng, n, tier):
